@@ -31,7 +31,9 @@ def spell_event(pp, tid, row, rnd, full):
     ev = {"tid": tid, "k": "spell",
           "row": {"db": db, "id": row["id"], "name": row["name"], "hasMono": row["mono"] is not None,
                   "mono": fix(row["mono"]) if row["mono"] is not None else [0, 0],
-                  "hasComp": bool(row.get("comp")), "comp": row.get("comp") or []},
+                  "hasComp": bool(row.get("comp")), "comp": row.get("comp") or [],
+                  # the table gives a composition for the entry (possibly the empty one: plain residues, D-amino acids)
+                  "tabCompKnown": row.get("comp") is not None},
           "spellings": sp, "mono": [], "avg": [], "comp": [], "pep": []}
     o0, c0 = call(pp.mod_comp, sp[-1] if db == "xlmod" else ("UNIMOD:" if db == "unimod" else "MOD:") + row["id"])
     ev["compFirstOk"] = o0 == "ret"
@@ -46,6 +48,8 @@ def spell_event(pp, tid, row, rnd, full):
 
 def rand_formula(rnd):
     els = rnd.sample(["C", "H", "N", "O", "S", "P", "Na", "Cl", "Se", "Fe", "K", "F", "I", "Br", "Mg"], rnd.randint(1, 5))
+    if rnd.random() < 0.3:
+        els = els + [rnd.choice(els)] + ([rnd.choice(els)] if rnd.random() < 0.3 else [])   # an element may come again
     parts = []
     for e in els:
         c = rnd.choice([1, 2, 3, 12, -1, -2, 20, "1.5", "0.25", "-2.0001"])
@@ -101,7 +105,9 @@ def run(tier, seed, rep):
         # rows whose tabulated composition uses group tokens (Ac, Me, Hex, ...) are always included: few and fragile
         special = [x for x in rows if x.get("comp") and any(len(t[0]) > 1 and t[0] in ("Ac", "Me", "Hex", "HexNAc", "dHex",
                    "NeuAc", "NeuGc", "Pent", "HexA", "Kdn", "Sulf", "Phos", "HexN", "Hep") for t in x["comp"])]
-        pick = rows if thorough else (rnd.sample(rows, 300) + colon[:150] + special[:120])
+        # ... and the rows whose tabulated composition is empty (plain residues, D-amino acids): mass 0, composition {}
+        zero = [x for x in rows if x.get("comp") is not None and all(t[1] == 0 for t in x["comp"])]
+        pick = rows if thorough else (rnd.sample(rows, 300) + colon[:150] + special[:120] + zero[:40])
         for j, row in enumerate(pick):
             evs.append(spell_event(pp, f"{db}.{row['id']}.{j}", row, rnd, thorough))
     for j, t in enumerate(obo.monosaccharides()):
